@@ -15,6 +15,56 @@ KERNELS = {
     "quick": ["comp3", "qty3", "qtycw3", "qtytm3", "mod3", "modcw3", "modtm3", "block3", "esc3", "wrap3", "path4"],
     "thorough": ["comp5", "qty5", "qtycw4", "qtytm4", "mod5", "modcw4", "modtm4", "block5", "esc5", "wrap4", "path5"],
 }
+# the kernels as data (spec/MC_Parser_<name><n>.cfg are written from this table by `python3 -m vlib.p_parser`):
+# name -> (alphabet, prefix, suffix, extension choices, old-style-metadata choices)
+COMP = ["@", "#", "~", "{", "}", "(", ")", "%", "|", "=", "&", "a", "1", " "]
+QTY = ["1", "0", "2", "/", ".", "-", " ", "%", "a", "=", "|", "NBSP"]
+MOD = ["@", "&", "?", "+", "-", "(", ")", "~", "=", "1", "0", " "]
+KERNEL_DEFS = {
+    "comp": (COMP, [], [], "ExtAllNone", "OnlyOsm"),
+    "qty": (QTY, ["@", "a", "{"], ["}"], "ExtMany", "OnlyOsm"),
+    "qtycw": (QTY, ["#", "a", "{"], ["}"], "ExtAllNone", "OnlyOsm"),
+    "qtytm": (QTY, ["~", "a", "{"], ["}"], "ExtMany", "OnlyOsm"),
+    "mod": (MOD, ["@"], ["a", "{", "}"], "ExtMany", "OnlyOsm"),
+    "modcw": (MOD, ["#"], ["a", "{", "}"], "ExtAllNone", "OnlyOsm"),
+    "modtm": (["@", "&", "?", "+", "-", "(", ")", "|", "=", "1", " ", "a"], ["~"], ["a", "{", "}"], "ExtAllNone", "OnlyOsm"),
+    "block": ([">", ":", "=", "a", " ", "LF", "@", "-", "[", "]", "{", "}"], [], [], "ExtModes", "BothOsm"),
+    "esc": (["BS", "@", "{", "}", "a", "E2", " ", "LF", "[", "-", "]", "(", ")", "E4", "TSP"], [], [], "ExtAllNone", "OnlyOsm"),
+    "wrap": (COMP, [], ["LF", "a"], "ExtAllNone", "OnlyOsm"),
+    "path": ([".", "/", "BS", "a", " ", "@", "&"], ["@"], ["{", "}"], "ExtAllNone", "OnlyOsm"),
+}
+SEQ_NAMES = {(): "NoSeq", ("@", "a", "{"): "PfxIgrBrace", ("#", "a", "{"): "PfxCwBrace", ("~", "a", "{"): "PfxTmBrace", ("}",): "SfxBrace",
+             ("@",): "PfxIgr", ("#",): "PfxCw", ("~",): "PfxTm", ("a", "{", "}"): "SfxName", ("LF", "a"): "SfxLine", ("{", "}"): "SfxBraces"}
+
+
+def kernel_strings(names):
+    """the inputs of the kernels (prefix + every body up to the kernel's length + suffix) without running TLC"""
+    import itertools
+    import re
+    seen = set()
+    out = []
+    for k in names:
+        m = re.match(r"([a-z]+)(\d+)$", k)
+        alpha, pfx, sfx, _, _ = KERNEL_DEFS[m.group(1)]
+        for n in range(0, int(m.group(2)) + 1):
+            for body in itertools.product(alpha, repeat=n):
+                t = tuple(pfx) + body + tuple(sfx)
+                if t not in seen:
+                    seen.add(t)
+                    out.append(list(t))
+    return out
+
+
+def write_cfgs():
+    for name, (alpha, pfx, sfx, ext, osm) in KERNEL_DEFS.items():
+        for n in (3, 4, 5):
+            with open(os.path.join(core.SPEC, f"MC_Parser_{name}{n}.cfg"), "w") as f:
+                f.write("CONSTANTS\n  Alphabet = {" + ", ".join(json.dumps(a) for a in alpha) + "}\n"
+                        f"  MaxLen = {n}\n  Prefix <- {SEQ_NAMES[tuple(pfx)]}\n  Suffix <- {SEQ_NAMES[tuple(sfx)]}\n"
+                        f"  ExtChoices <- {ext}\n  OsmChoices <- {osm}\nINIT MCInit\nNEXT MCNext\n"
+                        "INVARIANTS InvOrdered InvBracketed InvProgress2 InvFunctional2 NoStuck2 InvCovered Emit2\nCHECK_DEADLOCK FALSE\n")
+
+
 CLAUSE_TEXT = {
     "C01": "RecipeReadAsSpecified: an input the specification reads without a diagnostic is a recipe of the language; its "
            "events (components, names, aliases, modifiers, intermediate references, quantities, notes, texts, metadata, "
@@ -150,3 +200,8 @@ def replay(ctx, case, prop):
         for cl in names:
             ctx.violation(f"parser:{cl}", f"still fails: {cl}", dict(kind="parser", clause=cl, input=c["input"], ext=c["ext"], osm=c["osm"]))
     return ctx.finish()
+
+
+if __name__ == "__main__":
+    write_cfgs()
+    print("kernel configurations written")
